@@ -49,8 +49,8 @@ CHECKS = {
              note='64-bit x86 only (no cross assemblers for NEON/MIPS/PowerPC in the image); padding nops ignored on both sides.', ref='DESIGN.md#c12'),
  'C16': dict(cat='model_checking', engine='cbmc', technique='CBMC bounded model checking of enumerated lifecycle scripts through the real program/compiler/code/executor TUs with a stub back end; pointer checks (use-after-free, double free) and --memory-leak-check decide each script for all emitted sizes/bytes',
              text='Every enumerated sequence of compile / take_code / reset / recompile / run / emulate / free releases each resource exactly once, taken code stays valid after orc_program_free, no allocation is left behind.',
-             note='operation names enumerated (quick 18 scripts x 2 configurations; thorough all sequences <=3); ghost code-chunk allocator; real x86 back ends outside.', ref='DESIGN.md#c16'),
- 'C05': dict(cat='model_checking', engine='cbmc+irsym', technique='CBMC on the real table/loop functions (loop-shift selection with unwinding assertion, variable declaration limits at enumerated fill levels, compile result classification with a stub back end) and symbolic execution (irsym, LLVM IR) of the real front half of the compiler on programs at and beyond the load/store expansion limits',
+             note='operation names enumerated (quick 10 scripts x 1-2 configurations + 4 scripts with a failing back end; thorough +60 seed-rotated sequences of length <=3 x 2 configurations + 28 failing-back-end jobs); ghost code-chunk allocator; real x86 back ends outside.', ref='DESIGN.md#c16'),
+ 'C05': dict(cat='model_checking', engine='cbmc+irsym', technique='CBMC on the real table/loop functions (loop-shift selection with unwinding assertion, variable declaration limits at enumerated fill levels, every append entry point at 99/100 instructions with a frame check on vars[], compile result classification with a stub back end) and symbolic execution (irsym, LLVM IR) of the real front half of the compiler on programs at and beyond the load/store expansion limits',
              text='Termination and value of the loop-shift selection for every register/variable size; no table is written past its capacity and overruns are refused with an error; every result code is classified and fatal/non-fatal/successful results leave the stated state.',
              note='whole x86/NEON/MIPS/Altivec back ends are outside (the C01 family is compiled concretely with a watchdog); irsym detects out-of-bounds per object, member-to-member overflow through post-state invariants.', ref='DESIGN.md#c05'),
  'C07': dict(cat='translation_validation', engine='irsym', technique='orcc built from the tree and run on a corpus in every option set; gcc compile gate (header+implementation, normal and DISABLE_ORC); generated wrappers executed symbolically from clang IR (own executor irsym + z3) through the prototype the header declares: executor contract via a probe code object, wrapper+backup and DISABLE_ORC bodies vs the composition oracle; orc_memcpy/orc_memset vs libc semantics',
@@ -59,7 +59,7 @@ CHECKS = {
  'C08': dict(cat='model_checking', engine='evt', technique='own event-order SMT encoding (z3) of the real functions taken from clang LLVM IR: per-thread guarded memory events, integer clocks, read-from under SC, mutexes as atomic test-and-set; queries: exactly-once/visibility post-condition and C11 happens-before data race, for 2..4 threads',
              text='The once protocol (both compiler-selectable variants), the wrappers orcc generates (built and run at check time), orc_init, and every pairing of the code allocator entry points are serialisable and race free for every interleaving of 2..3 (thorough 4) threads making one call each.',
              note='SC interleavings + C11 hb races; loops in the allocator unrolled (2/3 back edges), heap abstracted to one location for the race query; compile/run bodies are opaque steps (their memory safety is C05/C09/C10); registries-written-only-in-init is assumed; Win32/no-atomics variants cannot be compiled here.', ref='DESIGN.md#c08'),
- 'C15': dict(cat='model_checking', engine='cbmc', technique='CBMC two-program equivalence harnesses on the real directive handlers vs the construction API (symbolic sizes/alignments), symbolic-digit literal harnesses, opcode-line operand-order harnesses, relational formatting harnesses on tokenizer and line splitter',
+ 'C15': dict(cat='model_checking', engine='cbmc', technique='CBMC two-program equivalence harnesses on the real directive handlers vs the construction API (declarations with symbolic sizes/alignments; .n in 8 keyword arrangements, .m, .flags 2d with functional strtol), symbolic-digit literal harnesses incl. full-width 64-bit hex/decimal, opcode-line operand-order harnesses, relational formatting harnesses on tokenizer and line splitter',
              text='Per-line contracts: directive == API call, literal == its value, prefix/operand order kept, tokens and lines independent of blanks/comments/CR LF; whole-file equality by composition over lines.',
              note='unit contracts + composition argument, not an end-to-end parse(print(P)) query (does not finish in CBMC); float literal values are libc strtod.', ref='DESIGN.md#c15'),
 }
